@@ -4,6 +4,7 @@ Property theorems over the model of `Model.lean`.  All statements are for every 
 number of subsets and segment range (no bound).
 -/
 import StirVerif.C06.Proofs
+import StirVerif.C06.SegRange
 
 namespace StirVerif.C06
 
@@ -158,5 +159,31 @@ example : (projected (Sym.effective 4 false true false true) 0 3 0 0 (-1) 1 1 2)
 
 example : Cfg (Sym.effective 16 true false true true) (-2) 2 (-3) 3 4 :=
   { wf := effective_WF 16 (by decide) _ _ _ _, npos := by decide, seg := by intro _; rfl, tof := by decide }
+
+/-! ### the segment range across re-use of an objective function (model `SegReq`; tied by the `balancedsu` lines of objects that
+    are set up a second time with data of another number of segments) -/
+
+/-- a new object processes all segments of its data -/
+theorem C06_new_object_uses_all_segments (d : Int) : SegReq.new.setUp d = some ⟨d, true⟩ := SegReq.new_setUp d
+
+/-- whatever the object went through before, a request for range `m` is what the next `set_up` uses (−1: all segments of the data;
+    larger than the data: refused) — in particular when `m` is exactly the value an earlier `set_up` had filled in -/
+theorem C06_requested_range_is_used (s : SegReq) (m d : Int) :
+    (s.request m).setUp d = if m = -1 then some ⟨d, true⟩ else if m > d then none else some ⟨m, false⟩ :=
+  SegReq.request_setUp s m d
+
+/-- a range that was filled in from the data follows the data the object is given next … -/
+theorem C06_filled_in_range_follows_new_data (s s' : SegReq) (d d2 : Int) (h : s.setUp d = some s') (hd : s'.isDefault = true) :
+    s'.setUp d2 = some ⟨d2, true⟩ := SegReq.setUp_default_follows s s' d d2 h hd
+
+/-- … and a range that was asked for stays (or the set-up is refused when the new data have fewer segments) -/
+theorem C06_requested_range_stays (s s' : SegReq) (d d2 : Int) (h : s.setUp d = some s') (hd : s'.isDefault = false) :
+    s'.setUp d2 = if s'.value > d2 then none else some s' := SegReq.setUp_requested_stays s s' d d2 h hd
+
+/-- non-vacuity and a broken variant for comparison: set up with data of 1 segment pair, ask for 1, get data with 2: the range
+    stays 1; with a setter that returns early when the value is the one in force it silently becomes 2 -/
+example : ((SegReq.new.setUp 1).map fun s => (s.request 1).setUp 2) = some (some ⟨1, false⟩) := by decide
+theorem C06_setter_early_return_is_wrong :
+    ((SegReq.new.setUp 1).map fun s => (s.requestEarlyReturn 1).setUp 2) = some (some ⟨2, true⟩) := by decide
 
 end StirVerif.C06
